@@ -494,6 +494,7 @@ pub struct RealErr {
     pub oog: bool,
     pub top_level_oog: bool,
     pub text: String,
+    pub full_text: String,
 }
 
 pub struct RealOut {
@@ -507,12 +508,14 @@ pub struct RealOut {
 }
 
 pub fn conv_err(e: ExecError<String>) -> RealErr {
-    let text: String = format!("{e:?}").chars().take(300).collect();
+    let full_text = format!("{e:?}");
+    let text: String = full_text.chars().take(300).collect();
     RealErr {
         index: e.0,
         oog: root_is_oog(&e.1),
         top_level_oog: matches!(e.1, OpError::OutOfGas(_)),
         text,
+        full_text,
     }
 }
 
@@ -734,6 +737,7 @@ pub fn judge(case: &VmCase, rep: &mut Report, mon: &Monitor, pools: &mut Pools, 
     let mut m = build_machine(case);
     let mut env = Env::new(&ops, &ctx.solutions, ctx.index, &ctx.views, &ctx.cost, ctx.limit);
     let mres = model::run(&mut m, &mut env, depth);
+    let m_state_error = env.state_error.clone();
     let (mgas, mexec, mchildren, mreads, m_in_child) = (env.gas, env.executed, env.children, env.reads, env.failed_in_child);
     let mut out = CaseOutcome {
         executed: mexec,
@@ -870,6 +874,14 @@ pub fn judge(case: &VmCase, rep: &mut Report, mon: &Monitor, pools: &mut Pools, 
                         "error-index",
                         format!("error reported at op {} but the failing op is {} ({})", e.index, m.pc, e.text),
                     ));
+                }
+                // a state error reaches the caller unchanged (top-level reads; a child's error is wrapped by whichever
+                // child rayon reports)
+                if let (Some(msg), false, true) = (&m_state_error, m_in_child, e.index == m.pc) {
+                    if !e.full_text.contains(msg.as_str()) {
+                        issues.push(("C11", "state-error-altered", format!("the state view failed with {msg:?} but the VM reports {}", e.text)));
+                    }
+                    rep.count("state_errors_passed_through");
                 }
                 if !m_in_child && e.index == m.pc {
                     let m_oog = *f == Fail::OutOfGas;
